@@ -362,7 +362,11 @@ pub fn run_calls_sink<S: std::io::Read + Write + std::io::Seek + SinkInfo>(calls
         if panicked {
             std::mem::forget(w);
         } else {
-            let _ = std::panic::catch_unwind(std::panic::AssertUnwindSafe(|| drop(w)));
+            // the implicit finalisation on drop must not panic either (an `Err` there is printed and dropped)
+            if std::panic::catch_unwind(std::panic::AssertUnwindSafe(|| drop(w))).is_err() {
+                out.tokens.push("panic-in-drop".into());
+                panicked = true;
+            }
         }
     }
     if let Some(p) = early { return finish_out(out, sink.sink_bytes(), p); }
